@@ -173,7 +173,7 @@ func TestC23(t *testing.T) {
 	var w *world
 	classes := map[string]int{}
 	gapSeen := map[string]int{}
-	var p1Checks, p2Checks, p3Pairs, mixedEvals, declineAfterReduction, opFailed, opOK, recreated int
+	var p1Checks, p2Checks, p3Pairs, mixedEvals, declineAfterReduction, opFailed, opOK, recreated, selfRedelegations, sameInstantChecks int
 
 	for s := 0; s < nseq && run.Violations() < 8; s++ {
 		if s%perWorld == 0 {
@@ -213,7 +213,7 @@ func TestC23(t *testing.T) {
 				kinds = append(kinds, "delegate", "delegate")
 			}
 			if heldP0.IsPositive() {
-				kinds = append(kinds, "unbond", "redelegate-out", "redelegate-out")
+				kinds = append(kinds, "unbond", "redelegate-out", "redelegate-out", "redelegate-self")
 			}
 			if heldP1.IsPositive() {
 				kinds = append(kinds, "redelegate-in", "redelegate-in")
@@ -226,7 +226,7 @@ func TestC23(t *testing.T) {
 			switch o.Kind {
 			case "delegate":
 				amt = pickAmount(rng, budget)
-			case "unbond", "redelegate-out":
+			case "unbond", "redelegate-out", "redelegate-self":
 				switch rng.Intn(4) {
 				case 0:
 					amt = heldP0 // full: the delegation entry is removed
@@ -243,6 +243,12 @@ func TestC23(t *testing.T) {
 			}
 			o.Amount = amt.String()
 			coin := sdk.NewCoin(w.denom, amt)
+			preCtx := w.ctx.WithBlockTime(time.Unix(now, 0).UTC())
+			dBefore, foundBefore := k.GetDelegation(preCtx, w.p0, delegator)
+			amtBefore, creditBefore := math.ZeroInt(), math.ZeroInt()
+			if foundBefore {
+				amtBefore, creditBefore = dBefore.Amount.Amount, k.CalculateMonthlyCredit(preCtx, dBefore).Amount
+			}
 			err := w.tx(now, func(cctx sdk.Context) error {
 				g := sdk.WrapSDKContext(cctx)
 				var err error
@@ -255,6 +261,8 @@ func TestC23(t *testing.T) {
 					_, err = ts.Servers.DualstakingServer.Redelegate(g, &dualstakingtypes.MsgRedelegate{Creator: delegator, FromProvider: w.p0, ToProvider: w.p1, FromChainID: "mock", ToChainID: "mock", Amount: coin})
 				case "redelegate-in":
 					_, err = ts.Servers.DualstakingServer.Redelegate(g, &dualstakingtypes.MsgRedelegate{Creator: delegator, FromProvider: w.p1, ToProvider: w.p0, FromChainID: "mock", ToChainID: "mock", Amount: coin})
+				case "redelegate-self": // source and target are the same provider: the amount held does not change
+					_, err = ts.Servers.DualstakingServer.Redelegate(g, &dualstakingtypes.MsgRedelegate{Creator: delegator, FromProvider: w.p0, ToProvider: w.p0, FromChainID: "mock", ToChainID: "mock", Amount: coin})
 				}
 				return err
 			})
@@ -280,7 +288,7 @@ func TestC23(t *testing.T) {
 			}
 			o.Held = newP0.String()
 			ops = append(ops, o)
-			if !newP0.Equal(heldP0) || len(steps) == 0 {
+			if !newP0.Equal(heldP0) || len(steps) == 0 || (o.Kind == "redelegate-self" && o.Err == "") {
 				if heldP0.IsZero() && newP0.IsPositive() {
 					if len(steps) > 0 {
 						recreated++
@@ -294,6 +302,21 @@ func TestC23(t *testing.T) {
 				continue // no delegation, no credit to evaluate
 			}
 			lastChange := steps[len(steps)-1].t
+			if o.Kind == "redelegate-self" && o.Err == "" {
+				selfRedelegations++
+			}
+			// an operation that does not lower the amount held must not lower the credit at that very instant
+			// (the credit describes the past 30 days, which the operation does not change)
+			if o.Err == "" && foundBefore && !newP0.LT(amtBefore) {
+				after := k.CalculateMonthlyCredit(evalCtx, d0).Amount
+				run.Eval(1)
+				if after.LT(creditBefore) {
+					fail("credit-lowered-by-an-operation-that-did-not-lower-the-amount", o.Kind,
+						fmt.Sprintf("%s at t=%d: amount %s -> %s, credit evaluated at the same instant %s -> %s", o.Kind, now, amtBefore, newP0, creditBefore, after), nil)
+				} else {
+					sameInstantChecks++
+				}
+			}
 			if d0.Timestamp != lastChange {
 				t.Fatalf("harness: stored delegation timestamp %d != time of the last amount change seen %d (sequence %d ops %+v)", d0.Timestamp, lastChange, s, ops)
 			}
@@ -397,6 +420,8 @@ func TestC23(t *testing.T) {
 	for k, v := range classes {
 		run.Count(k, v)
 	}
+	run.Count("self redelegations (same source and target provider, amount held unchanged)", selfRedelegations)
+	run.Count("same-instant checks (operation that does not lower the amount must not lower the credit)", sameInstantChecks)
 	run.Count("bound checks (0 <= credit <= max held in last 30 days)", p1Checks)
 	run.Count("unchanged>=30d checks (credit == amount)", p2Checks)
 	run.Count("monotonicity pairs checked (no larger amount ever held)", p3Pairs)
